@@ -104,17 +104,18 @@ type Prog struct {
 }
 
 type Out struct {
-	Progs       []Prog            `json:"progs"`
-	CStructs    []Struct          `json:"c_structs"`
-	GoStructs   []Struct          `json:"go_structs"`
-	CMaps       []CMap            `json:"c_maps"`
-	Uses        []Use             `json:"uses"`
-	Unbound     []Use             `json:"unbound_uses"`
-	Bindings    map[string]string `json:"bindings"` // "pkg.Type.field" -> kernel map name
-	MissingMaps []string          `json:"missing_maps"`
-	Events      []Event           `json:"events"`
-	Mirrors     []string          `json:"mirror_structs"`
-	Nested      []string          `json:"nested_structs"`
+	Progs            []Prog            `json:"progs"`
+	AccessMismatches []string          `json:"c_access_mismatches"`
+	CStructs         []Struct          `json:"c_structs"`
+	GoStructs        []Struct          `json:"go_structs"`
+	CMaps            []CMap            `json:"c_maps"`
+	Uses             []Use             `json:"uses"`
+	Unbound          []Use             `json:"unbound_uses"`
+	Bindings         map[string]string `json:"bindings"` // "pkg.Type.field" -> kernel map name
+	MissingMaps      []string          `json:"missing_maps"`
+	Events           []Event           `json:"events"`
+	Mirrors          []string          `json:"mirror_structs"`
+	Nested           []string          `json:"nested_structs"`
 }
 
 func die(format string, a ...any) {
@@ -122,13 +123,24 @@ func die(format string, a ...any) {
 	os.Exit(3)
 }
 
-func norm(name string) string {
-	// leaf name only
+var reCPad = regexp.MustCompile(`^_?(pad|reserved)[0-9]*$`)
+
+// norm gives the comparison name of a leaf: lower-case without underscores.  PADDING ("_") is recognised
+// narrowly: on the Go side only blank fields (`_`), on the C side only members called _pad, pad1, _reserved2 …
+// (^_?(pad|reserved)[0-9]*$) — a data member such as `reserved_ports` or `padding_mode` stays a data leaf.
+func norm(name string, goSide bool) string {
 	if i := strings.LastIndex(name, "."); i >= 0 {
 		name = name[i+1:]
 	}
+	if goSide {
+		if name == "_" {
+			return "_"
+		}
+	} else if reCPad.MatchString(name) {
+		return "_"
+	}
 	n := strings.ToLower(strings.ReplaceAll(name, "_", ""))
-	if n == "" || strings.HasPrefix(n, "pad") || strings.HasPrefix(n, "reserved") {
+	if n == "" {
 		return "_"
 	}
 	return n
@@ -233,7 +245,7 @@ func flatten(r *rawRec, where string) (Struct, error) {
 			continue
 		}
 		f := Field{Name: strings.Join(path, "."), Off: l.off, CType: l.typ}
-		f.Norm = norm(f.Name)
+		f.Norm = norm(f.Name, false)
 		typ := l.typ
 		if m := reArr.FindStringSubmatch(typ); m != nil {
 			n, _ := strconv.Atoi(m[2])
@@ -555,6 +567,185 @@ func (cf *cFile) buildCkeys(shim, dir string) {
 	}
 }
 
+// ---- what the programs read and write THROUGH (the helpers take void *, so the compiler checks nothing)
+
+var reHelperCall = regexp.MustCompile(`\bbpf_map_(lookup|update|delete)_elem\s*\(`)
+var reFuncHdr = regexp.MustCompile(`(?:static\s+(?:__always_inline\s+|inline\s+|__noinline\s+)*|\n)((?:struct\s+\w+|unsigned\s+\w+|\w+))\s*(\*?)\s*(\w+)\s*\([^;{}()]*(?:\([^()]*\)[^;{}()]*)*\)\s*\{`)
+var cKeywords = map[string]bool{"return": true, "else": true, "goto": true, "case": true, "sizeof": true, "typeof": true, "if": true, "while": true, "for": true, "switch": true, "do": true}
+
+func normType(t string) string {
+	return strings.Join(strings.Fields(strings.TrimPrefix(strings.TrimSpace(t), "const ")), " ")
+}
+
+// splitArgs splits the text between the parentheses of a call at top-level commas; returns the args and the index after ')'
+func splitArgs(src string, open int) ([]string, int) {
+	depth, start := 0, open+1
+	var args []string
+	for i := open; i < len(src); i++ {
+		switch src[i] {
+		case '(', '[', '{':
+			depth++
+		case ')', ']', '}':
+			depth--
+			if depth == 0 {
+				args = append(args, strings.TrimSpace(src[start:i]))
+				return args, i + 1
+			}
+		case ',':
+			if depth == 1 {
+				args = append(args, strings.TrimSpace(src[start:i]))
+				start = i + 1
+			}
+		}
+	}
+	return nil, -1
+}
+
+// declType finds the declaration `T [*]ident` that precedes pos (last one wins): returns T and whether it is a pointer
+func declType(src string, pos int, ident string) (string, bool, bool) {
+	re := regexp.MustCompile(`\b((?:const\s+)?(?:struct\s+\w+|unsigned\s+\w+|\w+))\s*(\*?)\s*\b` + regexp.QuoteMeta(ident) + `\b\s*(?:=[^=]|;|,|\)|\[)`)
+	ms := re.FindAllStringSubmatch(src[:pos], -1)
+	for i := len(ms) - 1; i >= 0; i-- {
+		t := normType(ms[i][1])
+		if cKeywords[t] || t == "" {
+			continue
+		}
+		return t, ms[i][2] == "*", true
+	}
+	return "", false, false
+}
+
+var reAmpIdent = regexp.MustCompile(`^&\s*(\w+)$`)
+var reIdent = regexp.MustCompile(`^(\w+)$`)
+var reAmpMember = regexp.MustCompile(`^&\s*(\w+)\s*(->|\.)\s*(\w+)$`)
+
+// argPointee gives the C type the argument expression points to
+func argPointee(src string, pos int, arg string, cStructs map[string]Struct) (string, error) {
+	if m := reAmpIdent.FindStringSubmatch(arg); m != nil {
+		t, ptr, ok := declType(src, pos, m[1])
+		if !ok {
+			return "", fmt.Errorf("no declaration of %s found", m[1])
+		}
+		if ptr {
+			return t + " *", nil
+		}
+		return t, nil
+	}
+	if m := reIdent.FindStringSubmatch(arg); m != nil {
+		t, ptr, ok := declType(src, pos, m[1])
+		if !ok || !ptr {
+			return "", fmt.Errorf("%s is not a declared pointer variable", m[1])
+		}
+		return t, nil
+	}
+	if m := reAmpMember.FindStringSubmatch(arg); m != nil {
+		t, ptr, ok := declType(src, pos, m[1])
+		if !ok || ptr != (m[2] == "->") || !strings.HasPrefix(t, "struct ") {
+			return "", fmt.Errorf("cannot type %s", arg)
+		}
+		st, ok := cStructs[strings.TrimPrefix(t, "struct ")]
+		if !ok {
+			return "", fmt.Errorf("%s has no understood layout", t)
+		}
+		for _, f := range st.Fields {
+			if f.Name == m[3] {
+				return normType(f.CType), nil
+			}
+		}
+		return "", fmt.Errorf("%s has no scalar member %s", t, m[3])
+	}
+	return "", fmt.Errorf("argument %q is not of the form &v, v, &v->f, &v.f", arg)
+}
+
+// checkAccesses: every bpf_map_{lookup,update,delete}_elem call must go through the key/value types the map
+// declares.  Forms that are not understood are fatal; type disagreements are returned (they become the generated
+// list `cAccessMismatches`, which Spec/C06 proves empty).
+func (cf *cFile) checkAccesses(repo string, cMaps map[string]CMap, cStructs map[string]Struct) []string {
+	var bad []string
+	files := make([]string, 0, len(cf.srcs))
+	for p := range cf.srcs {
+		files = append(files, p)
+	}
+	sort.Strings(files)
+	for _, p := range files {
+		src := cf.srcs[p]
+		rel, _ := filepath.Rel(repo, p)
+		for _, loc := range reHelperCall.FindAllStringSubmatchIndex(src, -1) {
+			kind := src[loc[2]:loc[3]]
+			at := fmt.Sprintf("%s:%d", rel, lineOf(src, loc[0]))
+			args, end := splitArgs(src, loc[1]-1)
+			want := map[string]int{"lookup": 2, "update": 4, "delete": 2}[kind]
+			if args == nil || len(args) != want {
+				die("%s: bpf_map_%s_elem call with %d arguments is not understood", at, kind, len(args))
+			}
+			mm := reAmpIdent.FindStringSubmatch(args[0])
+			if mm == nil {
+				die("%s: first argument %q of bpf_map_%s_elem is not &<map variable>", at, args[0], kind)
+			}
+			m, ok := cMaps[mm[1]]
+			if !ok {
+				die("%s: bpf_map_%s_elem on %s which is not a map declared with SEC(\".maps\")", at, kind, mm[1])
+			}
+			chk := func(what, got, decl string) {
+				if decl == "" {
+					return // declared by size only
+				}
+				if normType(got) != normType(decl) {
+					bad = append(bad, fmt.Sprintf("%s: map %s is declared with %s type `%s` but the program passes/reads `%s`", at, m.Name, what, decl, got))
+				}
+			}
+			kt, err := argPointee(src, loc[0], args[1], cStructs)
+			if err != nil {
+				die("%s: key argument of bpf_map_%s_elem(&%s, …): %v", at, kind, m.Name, err)
+			}
+			chk("key", kt, m.KeyType)
+			if kind == "update" {
+				vt, err := argPointee(src, loc[0], args[2], cStructs)
+				if err != nil {
+					die("%s: value argument of bpf_map_update_elem(&%s, …): %v", at, m.Name, err)
+				}
+				chk("value", vt, m.ValType)
+			}
+			if kind != "lookup" {
+				continue
+			}
+			// the type the result is read through
+			ls := strings.LastIndexAny(src[:loc[0]], ";{}")
+			before := strings.TrimSpace(src[ls+1 : loc[0]])
+			after := strings.TrimSpace(src[end:min(end+12, len(src))])
+			reDeclInit := regexp.MustCompile(`^((?:const\s+)?(?:struct\s+\w+|unsigned\s+\w+|\w+))\s*\*\s*\w+\s*=$`)
+			reAssign := regexp.MustCompile(`^(\w+)\s*=$`)
+			switch {
+			case strings.HasPrefix(after, "!=") || strings.HasPrefix(after, "=="):
+				// existence test only
+			case reDeclInit.MatchString(before):
+				chk("value", reDeclInit.FindStringSubmatch(before)[1], m.ValType)
+			case reAssign.MatchString(before):
+				v := reAssign.FindStringSubmatch(before)[1]
+				t, ptr, ok := declType(src, loc[0], v)
+				if !ok || !ptr {
+					die("%s: result of bpf_map_lookup_elem(&%s, …) is assigned to %s whose declaration `T *%s` cannot be found", at, m.Name, v, v)
+				}
+				chk("value", t, m.ValType)
+			case before == "return":
+				hs := reFuncHdr.FindAllStringSubmatch(src[:loc[0]], -1)
+				if len(hs) == 0 {
+					die("%s: `return bpf_map_lookup_elem(&%s, …)`: enclosing function header not found", at, m.Name)
+				}
+				h := hs[len(hs)-1]
+				if h[2] != "*" {
+					bad = append(bad, fmt.Sprintf("%s: map %s value `%s` is returned from %s() as non-pointer `%s`", at, m.Name, m.ValType, h[3], h[1]))
+				} else {
+					chk("value", h[1], m.ValType)
+				}
+			default:
+				die("%s: result of bpf_map_lookup_elem(&%s, …) is used in a form that is not understood (`%s … %s`): expected `T *v = …`, `v = …`, `return …`, `… != NULL`", at, m.Name, before, after)
+			}
+		}
+	}
+	return bad
+}
+
 func tail(s string, n int) string {
 	l := strings.Split(strings.TrimRight(s, "\n"), "\n")
 	if len(l) > n {
@@ -620,7 +811,7 @@ func (g *goLayouter) binLayout(t types.Type, prefix string, off int, out *[]Fiel
 		default:
 			return 0, fmt.Errorf("%s is not a fixed-size integer (encoding/binary rejects it)", u.String())
 		}
-		*out = append(*out, Field{Name: prefix, Norm: norm(prefix), Off: off, Width: w, Kind: "int", CType: types.TypeString(t, g.qual)})
+		*out = append(*out, Field{Name: prefix, Norm: norm(prefix, true), Off: off, Width: w, Kind: "int", CType: types.TypeString(t, g.qual)})
 		return w, nil
 	case *types.Array:
 		eb, ok := u.Elem().Underlying().(*types.Basic)
@@ -641,7 +832,7 @@ func (g *goLayouter) binLayout(t types.Type, prefix string, off int, out *[]Fiel
 		if err != nil {
 			return 0, err
 		}
-		f := Field{Name: prefix, Norm: norm(prefix), Off: off, Width: w * int(u.Len()), CType: types.TypeString(t, g.qual)}
+		f := Field{Name: prefix, Norm: norm(prefix, true), Off: off, Width: w * int(u.Len()), CType: types.TypeString(t, g.qual)}
 		if w == 1 {
 			f.Kind = "bytes"
 		} else {
@@ -734,8 +925,10 @@ func main() {
 	cStructErr := map[string]string{}
 	cMaps := map[string]CMap{}
 	var cEvents []Event
+	var cfs []*cFile
 	for _, p := range cfiles {
 		cf := readCFile(*repo, p)
+		cfs = append(cfs, cf)
 		recs, sizes := cf.compileProbe(*repo, *shim, *scratch)
 		if *ckeysDir != "" {
 			cf.buildCkeys(*shim, *ckeysDir)
@@ -799,6 +992,15 @@ func main() {
 		}
 		cEvents = append(cEvents, cf.events...)
 	}
+	seenBad := map[string]bool{}
+	for _, cf := range cfs {
+		for _, b := range cf.checkAccesses(*repo, cMaps, cStructs) {
+			if !seenBad[b] {
+				seenBad[b] = true
+				out.AccessMismatches = append(out.AccessMismatches, b)
+			}
+		}
+	}
 	for _, n := range sortedKeys(cStructs) {
 		out.CStructs = append(out.CStructs, cStructs[n])
 	}
@@ -812,16 +1014,55 @@ func main() {
 		Dir:  *repo,
 		Env:  append(os.Environ(), "GOFLAGS=-mod=mod", "GOPROXY=off", "GOOS=linux", "GOARCH=amd64"),
 	}
+	// every package of the module that imports github.com/cilium/ebpf can name a *ebpf.Map; handles cannot leave
+	// the analysed packages any other way (strictHandles below refuses returns, arguments, conversions), so these
+	// are all the packages in which a map use can exist.  Packages outside goPkgs must not touch a map at all.
+	glc := exec.Command("go", "list", "-f", "{{.ImportPath}}|{{join .Imports \",\"}}", "./...")
+	glc.Dir, glc.Env = *repo, cfg.Env
+	glOut, err := glc.Output()
+	if err != nil {
+		die("go list ./... in %s: %v", *repo, err)
+	}
+	inList := map[string]bool{}
+	for _, p := range goPkgs {
+		inList[p] = true
+	}
+	var outside []string
+	modPrefix := ""
+	type li struct{ path, imports string }
+	var lis []li
+	for _, l := range strings.Split(strings.TrimSpace(string(glOut)), "\n") {
+		path, imps, _ := strings.Cut(l, "|")
+		lis = append(lis, li{path, "," + imps + ","})
+		if strings.HasSuffix(path, "/"+goPkgs[0]) {
+			modPrefix = strings.TrimSuffix(path, goPkgs[0])
+		}
+	}
+	if modPrefix == "" {
+		die("package %s not found in %s", goPkgs[0], *repo)
+	}
+	for _, p := range lis {
+		if !strings.Contains(p.imports, ",github.com/cilium/ebpf,") {
+			continue
+		}
+		if rel := strings.TrimPrefix(p.path, modPrefix); !inList[rel] {
+			outside = append(outside, rel)
+		}
+	}
+	sort.Strings(outside)
 	var pats []string
 	for _, p := range goPkgs {
+		pats = append(pats, "./"+p)
+	}
+	for _, p := range outside {
 		pats = append(pats, "./"+p)
 	}
 	pkgs, err := packages.Load(cfg, pats...)
 	if err != nil {
 		die("go/packages: %v", err)
 	}
-	if len(pkgs) != len(goPkgs) {
-		die("go/packages loaded %d packages, want %d", len(pkgs), len(goPkgs))
+	if len(pkgs) != len(pats) {
+		die("go/packages loaded %d packages, want %d", len(pkgs), len(pats))
 	}
 	gl := &goLayouter{short: map[string]string{}}
 	for _, p := range pkgs {
@@ -840,8 +1081,14 @@ func main() {
 	for _, p := range pkgs {
 		ex := &goExtractor{p: p, gl: gl, repo: *repo, out: &out, goStructs: goStructs, nested: nested, used: usedTypes,
 			bind: map[*types.Var]string{}, unboundSrc: map[*types.Var]string{}, iters: map[*types.Var]*types.Var{}, typeNames: map[*types.TypeName]string{}}
+		if !inList[strings.TrimPrefix(p.PkgPath, modPrefix)] {
+			// a package the translator does not analyse: it may load/attach programs but must not hold a map handle
+			ex.noHandles()
+			continue
+		}
 		ex.collectTypes()
 		ex.collectBindings()
+		ex.strictHandles()
 		ex.collectUses()
 		_ = typeName
 	}
@@ -922,7 +1169,12 @@ func main() {
 		}
 	}
 	if *leanOut != "" {
-		if err := os.WriteFile(*leanOut, []byte(emitLean(&out, cMaps, cStructs)), 0o644); err != nil {
+		// atomically: a concurrent `lake build` never sees a half-written table
+		tmp := *leanOut + fmt.Sprintf(".tmp%d", os.Getpid())
+		if err := os.WriteFile(tmp, []byte(emitLean(&out, cMaps, cStructs)), 0o644); err != nil {
+			die("%v", err)
+		}
+		if err := os.Rename(tmp, *leanOut); err != nil {
 			die("%v", err)
 		}
 	}
@@ -1136,6 +1388,179 @@ func (ex *goExtractor) argStruct(e ast.Expr, what, site string) (*Struct, bool) 
 	}
 	ex.used[name] = true
 	return st, slice
+}
+
+// mapish: *ebpf.Map itself ("exact") or a type that carries one by embedding
+func mapish(t types.Type, depth int) (exact, embeds bool) {
+	if t == nil || depth > 4 {
+		return false, false
+	}
+	if isPtrTo(t, ciliumMap) {
+		return true, false
+	}
+	if p, ok := t.Underlying().(*types.Pointer); ok {
+		t = p.Elem()
+	}
+	if n, ok := t.(*types.Named); ok && n.Obj().Pkg() != nil && n.Obj().Pkg().Path()+"."+n.Obj().Name() == ciliumMap {
+		return false, true // a Map VALUE (copied handle)
+	}
+	if st, ok := t.Underlying().(*types.Struct); ok {
+		for i := 0; i < st.NumFields(); i++ {
+			if st.Field(i).Embedded() {
+				if e, m := mapish(st.Field(i).Type(), depth+1); e || m {
+					return false, true
+				}
+			}
+		}
+	}
+	return false, false
+}
+
+// noHandles: a package outside goPkgs must not contain any expression that is (or embeds) a *ebpf.Map
+func (ex *goExtractor) noHandles() {
+	for _, f := range ex.p.Syntax {
+		ast.Inspect(f, func(n ast.Node) bool {
+			e, ok := n.(ast.Expr)
+			if !ok {
+				return true
+			}
+			if tv, ok := ex.p.TypesInfo.Types[e]; ok {
+				if ex1, emb := mapish(tv.Type, 0); ex1 || emb {
+					die("%s: package %s is not one of the analysed packages %v but handles a *ebpf.Map (%s): its map uses would be invisible — add the package to goPkgs",
+						ex.pos(e), ex.p.PkgPath, goPkgs, types.ExprString(e))
+				}
+			}
+			return true
+		})
+	}
+}
+
+// strictHandles walks EVERY value expression whose type is (or embeds) *ebpf.Map and allows only the contexts the
+// translator understands: receiver of a method call on the map, either side of an assignment between *ebpf.Map
+// values (a binding), comparison with nil, argument of ringbuf.NewReader / perf.NewReader.  Everything else — a
+// method value (`put := m.x.Put`), passing the handle to a function, returning it, storing it in an interface or a
+// composite literal, embedding it in a struct — would make uses disappear from the table and is refused loudly.
+func (ex *goExtractor) strictHandles() {
+	info := ex.p.TypesInfo
+	for _, f := range ex.p.Syntax {
+		var stack []ast.Node
+		ast.Inspect(f, func(n ast.Node) bool {
+			if n == nil {
+				stack = stack[:len(stack)-1]
+				return true
+			}
+			stack = append(stack, n)
+			if ts, ok := n.(*ast.TypeSpec); ok {
+				if obj, ok := info.Defs[ts.Name].(*types.TypeName); ok {
+					if _, emb := mapish(obj.Type(), 0); emb {
+						die("%s: type %s embeds a *ebpf.Map: calls through it are not understood", ex.pos(ts), obj.Name())
+					}
+				}
+			}
+			e, ok := n.(ast.Expr)
+			if !ok {
+				return true
+			}
+			tv, ok := info.Types[e]
+			if !ok || !tv.IsValue() {
+				return true
+			}
+			exact, emb := mapish(tv.Type, 0)
+			if emb {
+				die("%s: expression %s has type %s which embeds / copies a *ebpf.Map: not understood", ex.pos(e), types.ExprString(e), tv.Type)
+			}
+			if !exact {
+				return true
+			}
+			if tv.IsNil() {
+				return true
+			}
+			// nearest non-paren parent
+			i := len(stack) - 2
+			for i >= 0 {
+				if _, ok := stack[i].(*ast.ParenExpr); !ok {
+					break
+				}
+				i--
+			}
+			if i < 0 {
+				die("%s: map handle %s outside any statement", ex.pos(e), types.ExprString(e))
+			}
+			child := stack[i+1]
+			isMapOrNil := func(x ast.Expr) bool {
+				t, ok := info.Types[x]
+				if !ok { // a defining identifier (x := …)
+					if id, ok := x.(*ast.Ident); ok {
+						if o := info.Defs[id]; o != nil {
+							return isPtrTo(o.Type(), ciliumMap)
+						}
+					}
+					return false
+				}
+				return t.IsNil() || isPtrTo(t.Type, ciliumMap)
+			}
+			switch par := stack[i].(type) {
+			case *ast.SelectorExpr:
+				if par.X == child {
+					sel := info.Selections[par]
+					if sel != nil && sel.Kind() == types.MethodVal {
+						// must be called on the spot
+						j := i - 1
+						for j >= 0 {
+							if _, ok := stack[j].(*ast.ParenExpr); !ok {
+								break
+							}
+							j--
+						}
+						if j >= 0 {
+							if c, ok := stack[j].(*ast.CallExpr); ok && ast.Node(c.Fun) == stack[j+1] {
+								return true // collectUses classifies the method (unknown ones die there)
+							}
+						}
+						die("%s: method value %s of a *ebpf.Map is not called on the spot: the call would be invisible", ex.pos(par), types.ExprString(par))
+					}
+				}
+				die("%s: selector %s on a map handle is not a method call", ex.pos(par), types.ExprString(par))
+			case *ast.AssignStmt:
+				for k := range par.Lhs {
+					if len(par.Lhs) == len(par.Rhs) && (ast.Node(par.Lhs[k]) == child || ast.Node(par.Rhs[k]) == child) {
+						if isMapOrNil(par.Lhs[k]) && isMapOrNil(par.Rhs[k]) {
+							return true
+						}
+						die("%s: map handle %s is assigned to/from a value of another type (interface?): not understood", ex.pos(par), types.ExprString(e))
+					}
+				}
+				die("%s: map handle %s in a multi-value assignment", ex.pos(par), types.ExprString(e))
+			case *ast.BinaryExpr:
+				if par.Op == token.EQL || par.Op == token.NEQ {
+					other := par.X
+					if ast.Node(par.X) == child {
+						other = par.Y
+					}
+					if t, ok := info.Types[other]; ok && t.IsNil() {
+						return true
+					}
+				}
+				die("%s: map handle %s in a comparison with something other than nil", ex.pos(par), types.ExprString(e))
+			case *ast.CallExpr:
+				if ast.Node(par.Fun) != child {
+					if se, ok := par.Fun.(*ast.SelectorExpr); ok {
+						if fn, ok := info.Uses[se.Sel].(*types.Func); ok && fn.Pkg() != nil && fn.Name() == "NewReader" &&
+							(fn.Pkg().Path() == "github.com/cilium/ebpf/ringbuf" || fn.Pkg().Path() == "github.com/cilium/ebpf/perf") {
+							return true
+						}
+					}
+					die("%s: map handle %s is passed to %s: the callee's uses of the map would be invisible", ex.pos(par), types.ExprString(e), types.ExprString(par.Fun))
+				}
+				die("%s: call of a map-typed function value %s", ex.pos(par), types.ExprString(e))
+			case *ast.IndexExpr:
+				// coll.Maps["name"]: the index expression itself is the handle; its parent is judged when visited
+				die("%s: indexing a map handle %s", ex.pos(par), types.ExprString(e))
+			}
+			die("%s: map handle %s is used in a %T (returned, stored in a literal, sent, converted …): not understood", ex.pos(e), types.ExprString(e), stack[i])
+			return true
+		})
+	}
 }
 
 func (ex *goExtractor) collectUses() {
@@ -1364,6 +1789,8 @@ func emitLean(o *Out, cMaps map[string]CMap, cStructs map[string]Struct) string 
 	emitUses("unboundUses", o.Unbound, false)
 	b.WriteString("/-- kernel map names the Go code asks the collection for but no C source declares -/\n")
 	fmt.Fprintf(&b, "def missingMaps : List String := [%s]\n\n", joinQuoted(o.MissingMaps))
+	b.WriteString("/-- bpf_map_lookup/update/delete_elem calls whose key/value C type differs from the map's declared __type -/\n")
+	fmt.Fprintf(&b, "def cAccessMismatches : List String := [%s]\n\n", joinQuoted(o.AccessMismatches))
 	b.WriteString("/-- (Go type, C record, transport, map): records the programs emit to user space -/\ndef eventStructs : List EventPair := [\n")
 	for i, e := range o.Events {
 		sep := ","
